@@ -126,6 +126,7 @@ type Task struct {
 	Faulted bool // an injected fault hit this task
 	Crashed bool // cut off by a crash
 	Zombie  bool // belongs to an instance that lost its lease without noticing: it goes on while a fresh instance works
+	batchSeen bool // C17: the task has already released one parallel batch
 	Stalled bool // the clock moved while it was in flight
 	Conflict bool
 	client  *ctrlClient
